@@ -8,6 +8,7 @@ import (
 
 	zed "github.com/brimdata/super"
 	"github.com/brimdata/super/pkg/verif"
+	"github.com/brimdata/super/runtime/sam/expr/agg"
 
 	"verif/core"
 )
@@ -25,6 +26,8 @@ type Event struct {
 	R     int      `json:"r,omitempty"`
 	RB    []string `json:"rb,omitempty"`
 	Racy  bool     `json:"racy,omitempty"`
+	K     int      `json:"k,omitempty"` // mapper events: local type id (1-based)
+	S     int      `json:"s,omitempty"` // mapper events: stream
 }
 
 // Snap is the spec's context state after the last event of a line.
@@ -87,14 +90,22 @@ type world struct {
 	running *proc
 	overlap bool // some calls overlapped in this behaviour
 	mapper  *zed.Mapper
-	drift   []string
+	// multi-stream reading (TypeMapper.tla)
+	streams    [][]Term
+	locals     map[int][]zed.Type // stream -> its local types (local context per stream)
+	smapper    *zed.Mapper
+	scache     zed.MapperLookupCache
+	sidx       int
+	firstShape map[zed.Type]string // structure of every type object when first seen
+	drift      []string
 	viol    int
 	witness any
 }
 
 func newWorld(c *core.Ctx, u *universe, witness any) *world {
 	w := &world{c: c, u: u, ctx: zed.NewContext(), src: zed.NewContext(), bufs: map[int][]byte{},
-		firstTV: map[zed.Type][]byte{}, procs: map[int]*proc{}, witness: witness}
+		firstTV: map[zed.Type][]byte{}, procs: map[int]*proc{}, witness: witness,
+		locals: map[int][]zed.Type{}, firstShape: map[zed.Type]string{}}
 	w.mapper = zed.NewMapper(w.ctx)
 	return w
 }
@@ -247,6 +258,7 @@ func (w *world) prepare(ev Event) (func() callResult, error) {
 			w.ctx.Reset()
 			// every type object handed out so far is dead now
 			w.firstTV = map[zed.Type][]byte{}
+			w.firstShape = map[zed.Type]string{}
 			w.mapper = zed.NewMapper(w.ctx)
 			return callResult{}
 		}, nil
@@ -462,6 +474,11 @@ func (w *world) runLine(ln *Line) error {
 				return nil
 			}
 			w.observe()
+		case "menter", "mlookup", "mreset":
+			if err := w.mapperEvent(i, ev); err != nil {
+				return err
+			}
+			w.observe()
 		case "reuse":
 			buf := w.bufs[ev.B]
 			if buf == nil {
@@ -475,7 +492,115 @@ func (w *world) runLine(ln *Line) error {
 		}
 	}
 	w.compare(&ln.CX)
+	w.clientFuse()
 	return nil
+}
+
+// localType returns local type k of stream s, building the stream's local
+// context on first use (local ids 30, 31, ... in the order of the table).
+func (w *world) localType(s, k int) (zed.Type, error) {
+	if s < 1 || s > len(w.streams) {
+		return nil, fmt.Errorf("no stream %d", s)
+	}
+	if w.locals[s] == nil {
+		lctx := zed.NewContext()
+		for j, t := range w.streams[s-1] {
+			typ, err := w.u.build(lctx, t)
+			if err != nil {
+				return nil, err
+			}
+			if zed.TypeID(typ) != zed.IDTypeComplex+j {
+				return nil, fmt.Errorf("stream %d: local type %d got id %d (the stream table must list subtypes first)", s, j+1, zed.TypeID(typ))
+			}
+			w.locals[s] = append(w.locals[s], typ)
+		}
+	}
+	if k < 1 || k > len(w.locals[s]) {
+		return nil, nil
+	}
+	return w.locals[s][k-1], nil
+}
+
+// mapperEvent replays Mapper.Enter / MapperLookupCache.Lookup / Reset.
+func (w *world) mapperEvent(i int, ev Event) error {
+	if w.smapper == nil {
+		w.smapper = zed.NewMapper(w.ctx)
+		w.scache.Reset(w.smapper)
+		w.sidx = 1
+	}
+	switch ev.E {
+	case "mreset":
+		w.sidx = ev.S
+		w.smapper = zed.NewMapper(w.ctx)
+		w.scache.Reset(w.smapper)
+	case "menter":
+		local, err := w.localType(w.sidx, ev.K)
+		if err != nil || local == nil {
+			return fmt.Errorf("event %d: menter %d: %v", i, ev.K, err)
+		}
+		typ, err := w.smapper.Enter(local)
+		w.checkResult(Event{R: ev.R}, Event{M: "translate", OT: ev.OT}, callResult{typ: typ, err: err})
+	case "mlookup":
+		local, err := w.localType(w.sidx, ev.K)
+		if err != nil {
+			return fmt.Errorf("event %d: mlookup %d: %v", i, ev.K, err)
+		}
+		typ := w.scache.Lookup(zed.IDTypeComplex + ev.K - 1)
+		if got := w.sid(typ); got != ev.R {
+			w.driftf("MapperLookupCache.Lookup(local id %d) in stream %d: spec predicts shared type id %d, real %d", ev.K, w.sidx, ev.R, got)
+		}
+		if typ == nil {
+			break
+		}
+		// Oracle: the shared type denotes the local type of THIS stream.
+		if local == nil || normKey(w.u.describe(typ)) != normKey(w.u.describe(local)) {
+			want := "no type (the id is not defined in this stream)"
+			if local != nil {
+				want = ordKey(w.u.describe(local))
+			}
+			w.violate("mapper-cache-stale:MapperLookupCache", fmt.Sprintf("after Reset with the mapper of stream %d, MapperLookupCache.Lookup(local id %d) returns %s; the local type is %s: an entry of the previous stream's mapper survived the reset",
+				w.sidx, zed.IDTypeComplex+ev.K-1, ordKey(w.u.describe(typ)), want))
+		}
+	}
+	return nil
+}
+
+// clientFuse lets an ordinary client of the context -- the fuse aggregate's
+// type merger -- work on the context's types: merging a union with each of
+// its members and every pair of records.  It may create new types; it must
+// not change any existing one (checked by observe and the final oracles).
+func (w *world) clientFuse() {
+	defer func() {
+		if r := recover(); r != nil {
+			w.violate("client-panics:agg.Schema", fmt.Sprintf("agg.Schema.Mixin over the context's types panics: %v", r))
+		}
+	}()
+	all := w.all()
+	for _, typ := range all {
+		if un, ok := typ.(*zed.TypeUnion); ok {
+			members := append([]zed.Type(nil), un.Types...)
+			for _, m := range members {
+				s := agg.NewSchema(w.ctx)
+				s.Mixin(un)
+				s.Mixin(m)
+				_ = s.Type()
+			}
+		}
+	}
+	var recs []zed.Type
+	for _, typ := range all {
+		if _, ok := typ.(*zed.TypeRecord); ok {
+			recs = append(recs, typ)
+		}
+	}
+	for i := 0; i < len(recs) && i < 4; i++ {
+		for j := 0; j < len(recs) && j < 4; j++ {
+			s := agg.NewSchema(w.ctx)
+			s.Mixin(recs[i])
+			s.Mixin(recs[j])
+		}
+	}
+	w.observe()
 }
 
 // drain lets any still-parked goroutine finish so that nothing leaks.
@@ -502,6 +627,15 @@ func (w *world) drain() {
 // serialization of the type's structure.
 func (w *world) observe() {
 	for _, typ := range w.all() {
+		// a type object never changes once the context has handed it out
+		shape := ordKey(w.u.describe(typ))
+		if was, ok := w.firstShape[typ]; !ok {
+			w.firstShape[typ] = shape
+		} else if was != shape {
+			w.violate("type-object-mutated:"+kindOf(typ), fmt.Sprintf("the type object with id %d was %s and is now %s: a type of the context was modified in place", zed.TypeID(typ), was, shape))
+			w.firstShape[typ] = shape
+			continue
+		}
 		now := w.ctx.LookupTypeValue(typ).Bytes()
 		first, seen := w.firstTV[typ]
 		if !seen {
